@@ -125,6 +125,27 @@ func (mt *memtable) set(entry types.Entry) {
 	mt.logger.Infof("memtable set [key: %v] [value: %v] [tombstone: %v] [version: %v]", entry.Key, string(entry.Value), entry.Tombstone, entry.Version)
 }
 
+// setBatch applies entries with a single wal write,
+// after a crash either all of them are recovered or none
+func (mt *memtable) setBatch(entries []types.Entry) {
+	mt.mu.Lock()
+	defer mt.mu.Unlock()
+
+	if mt.readOnly {
+		mt.logger.Panicf("write readonly memtable")
+	}
+
+	for _, entry := range entries {
+		mt.skiplist.Set(entry)
+	}
+	if err := mt.wal.Write(entries...); err != nil {
+		mt.logger.Panicf("write wal failed: %v", err)
+	}
+	for _, entry := range entries {
+		mt.logger.Infof("memtable set [key: %v] [value: %v] [tombstone: %v] [version: %v]", entry.Key, string(entry.Value), entry.Tombstone, entry.Version)
+	}
+}
+
 func (mt *memtable) get(key types.Key) (types.Entry, bool) {
 	mt.mu.RLock()
 	defer mt.mu.RUnlock()
